@@ -260,7 +260,25 @@ class _ReturnRewriter(ast.NodeTransformer):
             return [ast.copy_location(ast.If(test=test, body=copy.deepcopy(body) or [ast.copy_location(ast.Pass(), at)], orelse=copy.deepcopy(orelse)), at)]
         if self.target is not None:
             v = value if value is not None else ast.Constant(value=None)
-            out.append(ast.copy_location(ast.Assign(targets=[copy.deepcopy(self.target)], value=v), at))
+            tg = self.target
+            if isinstance(tg, ast.Name) and isinstance(v, ast.Name) and v.id == tg.id:
+                return out          # x = x
+            if isinstance(tg, (ast.Tuple, ast.List)) and isinstance(v, (ast.Tuple, ast.List)) and len(tg.elts) == len(v.elts) \
+                    and all(isinstance(e, ast.Name) for e in tg.elts):
+                names = [e.id for e in tg.elts]
+                # element-wise, unless a value reads a target that an earlier element assignment has already changed
+                safe = True
+                for i, ve in enumerate(v.elts):
+                    used = {n.id for n in ast.walk(ve) if isinstance(n, ast.Name)}
+                    if used & {nm for j, nm in enumerate(names[:i]) if not (isinstance(v.elts[j], ast.Name) and v.elts[j].id == nm)}:
+                        safe = False
+                if safe:
+                    for e, ve in zip(tg.elts, v.elts):
+                        if isinstance(ve, ast.Name) and ve.id == e.id:
+                            continue
+                        out.append(ast.copy_location(ast.Assign(targets=[copy.deepcopy(e)], value=ve), at))
+                    return out
+            out.append(ast.copy_location(ast.Assign(targets=[copy.deepcopy(tg)], value=v), at))
         elif value is not None and not isinstance(value, (ast.Constant, ast.Name)):
             out.append(ast.copy_location(ast.Expr(value=value), at))
         return out
@@ -646,7 +664,18 @@ class Inliner:
             self._note_names(blk)
             pre.extend(blk)
             self._replace_node(st, call, ast.copy_location(ast.Name(id=tmp.id, ctx=ast.Load()), call))
+        if pre:
+            self._subst_fields(st)          # an argument that was a call is a plain name now
         return pre + [st]
+
+    def _subst_fields(self, st: ast.stmt) -> None:
+        for field in ("value", "test", "iter", "exc", "cause", "msg"):
+            v = getattr(st, field, None)
+            if isinstance(v, ast.AST):
+                setattr(st, field, self._subst_expr_calls(v))
+        if isinstance(st, ast.With):
+            for it in st.items:
+                it.context_expr = self._subst_expr_calls(it.context_expr)
 
     def _note_names(self, blk: T.List[ast.stmt]) -> None:
         for b in blk:
